@@ -848,6 +848,19 @@ def corrupt_three_files(ctx, rng, d, which):
             ("vertical file twice, east missing", [P["vt"], P["vt"], P["ns"]]),
             ("four files (east twice)", [P["vt"], P["ns"], P["ew"], P["ew"]])]
     rng.shuffle(sets)
+    if which == "peer" and str(fs_["codes"]["ns"]).isdigit():
+        # a second file of the SAME horizontal direction written with another spelling of its azimuth code (000 / 360 / 0,
+        # 045 / 45, 350 / -10 is not legal): the north component twice, the east one missing
+        code = str(fs_["codes"]["ns"])
+        h = int(code) % 360
+        alts = [a for a in (["000", "360", "0"] if h == 0 else ["%03d" % h, str(h)]) if a != code]
+        if alts:
+            alt = alts[int(rng.integers(0, len(alts)))]
+            parsed = FF.parse_peer(P["ns"])
+            other = os.path.join(d, "north_again.vt2")
+            FF.write_peer(other, [FF.peer_token(v, fs_["style"]) for v in parsed["data"] * 0.5], alt, fs_["dt_text"], eol=fs_["eol"])
+            sets.insert(0, (f"north component twice under two spellings of its azimuth code ({code} and {alt}), east missing",
+                            [P["vt"], P["ns"], other]))
     for lab, names in sets[:4]:
         names = [names[i] for i in rng.permutation(len(names))]
         expect_refusal(ctx, names, "component", lab, info)
